@@ -303,6 +303,16 @@ class Inliner:
                 from .normalize import desugar_attr_builtins, resolve_literal_splats
 
                 resolve_literal_splats(node)       # `f(**given)` / `f(*rest)` with the literal a variadic helper parameter was bound to
+                from .normalize import fold_substituted_tests
+
+                def _is_method(name, _f=f):
+                    if _f.cls is None:
+                        return False
+                    hit = self.prog.lookup(_f.cls, name)
+                    return hit is not None and hit[1].func_raw is not None and hit[1].getter_raw is None and not any(
+                        d in ("staticmethod",) for d in hit[1].decorators)
+
+                fold_substituted_tests(node, _is_method)
             if fmt or changed:
                 changed |= desugar_tables(node, f.module.top)  # before scalar replacement: the rows may be private records
                 changed |= scalar_replace(node, f.module)
